@@ -180,7 +180,7 @@ def run_suite(res, cases, name, per=250, fuel=FUEL, rule="", extra=None):
         shards.append("Definition RE := %s.\n%s\nDefinition DD : decls := %s.\nDefinition cases : list pcase := [\n%s\n].\n"
                       "Goal True. idtac \"MISMATCH\". exact I. Qed.\nEval vm_compute in (bad_idx (case_ok DD) cases).\n"
                       "Goal True. idtac \"SKIPS\". exact I. Qed.\nEval vm_compute in (count_if (case_skip DD) cases).\n"
-                      % (table, PRELUDE % fuel, world.decls_term(), ";\n".join(lines[s:s + per])))
+                      % (table, PRELUDE % fuel, world.decls_term_for(lines[s:s + per]), ";\n".join(lines[s:s + per])))
     mism, skips = [], 0
     b = core.build(["Model/Parse.vo"])
     if not b["ok"]:
